@@ -572,6 +572,7 @@ def run(case):
         "container_fingerprint_checks": eng.light_checks,
         "ops_aborted": aborted,
         "caller_side_document_edits": len(shared.edit_log),
+        "lock_stall_recoveries": eng.lock_stalls,
         "diagnostic_ops_with_step_count_differing_from_solo": divergent,
         "context_switches": eng.switches,
         "mid_operation_switches": eng.mid_op_switches,
